@@ -7,7 +7,8 @@ from concurrent.futures import ThreadPoolExecutor
 from vcommon import COQ, ROOT, Check, main_wrapper, run_impl, glist, gbool
 
 # ------------------------------------------------------------------ vocabulary
-TAGS = ["x", "y", "model", "mode", "android", "origin", "notes", "inner", "Lr"]   # letters only (pp.Word(pp.alphas))
+TAGS = ["x", "y", "model", "mode", "android", "origin", "notes", "inner", "Lr",
+        "model2", "batch_size", "x_1", "in2", "and_1"]                     # a letter, then letters / digits / underscores
 VALUES = ["a", "b", "ab", "ba", "a b", "bm25", "", "a.b", "x_1", "DONE", "ERROR", "RUNNING", "m.t", "it's", 'q"t',
           "aab", "abab", "b0", "a-b", "a_b", "r12", "rdd", "1", "a(b", "a\\b", "a\\tb", "c:\\new", "\\d", "a\\.b", "\\",
           "a\\x41", "a\\0b", "a\\rb"]
@@ -43,6 +44,8 @@ def gen_job(rng, task=None, hsh=None):
     tags = {}
     for t in rng.sample(TAGS, rng.choice([0, 1, 2, 2, 3, 4])):
         tags[t] = gen_value(rng)
+        if rng.random() < 0.12:                  # .tag("layers", 3), .tag("lr", 0.1): params.json holds a number
+            tags[t] = rng.choice([0, 1, 3, 12, 0.1, 2.5])
     j = dict(task=task or rng.choice(TASKS), hash=hsh or rng.choice(HASHES), done=done, failed=failed, pid=pid,
              alive=alive, tags=tags)
     if pidfile != "ok":
@@ -84,7 +87,8 @@ def lookup(v, j):
         return true_state(j)
     if v == "@name":
         return j["task"]
-    return j["tags"].get(v)
+    x = j["tags"].get(v)
+    return x if x is None or isinstance(x, str) else str(x)        # a numeric tag is compared through its text
 
 
 def near(rng, v, j):
@@ -295,7 +299,7 @@ def g_key(k):
 
 
 def g_job(j):
-    tags = glist(f"({g_str(k)}, {g_str(v)})" for k, v in j["tags"].items())
+    tags = glist(f"({g_str(k)}, {g_str(v if isinstance(v, str) else str(v))})" for k, v in j["tags"].items())
     return (f"{{| j_task := {g_str(j['task'])}; j_hash := {g_str(j['hash'])}; j_done := {gbool(j['done'])}; "
             f"j_failed := {gbool(j['failed'])}; j_pid := {gbool(j['pid'])}; j_alive := {gbool(maybe_alive(j))}; "
             f"j_tags := {tags} |}}")
@@ -619,6 +623,18 @@ def gen_near(rng, j, label=None):
     return dict(expr=e2, text=text, reading=tree, label=label)
 
 
+def numeric_tag(a, j):
+    """the test looks at a tag whose value is a number in params.json"""
+    vs = [a["v"]] + ([a["o"]["var"]] if a["k"] == "eq" and "var" in a["o"] else [])
+    return any(not v.startswith("@") and v in j["tags"] and not isinstance(j["tags"][v], str) for v in vs)
+
+
+def odd_tagname(a):
+    """the test names a tag with a digit or an underscore (alphanumeric, as the help of `jobs` says)"""
+    vs = [a["v"]] + ([a["o"]["var"]] if a["k"] == "eq" and "var" in a["o"] else [])
+    return any(not v.startswith("@") and not v.isalpha() for v in vs)
+
+
 def has_backslash(a):
     """a string of the test holds a backslash (escape of a regular expression, Windows path, ...)"""
     if a["k"] == "eq":
@@ -642,10 +658,12 @@ def blame(case, ans, k=None):
     for a, r in zip(atoms_of(case["expr"]), ans.get("atoms") or []):
         if k is None:
             if r["build_exc"] is not None:
-                return a["k"]
+                return "tag-name" if (odd_tagname(a) and r["build_exc"] == "ParseException") else a["k"]
         else:
             v = r["verdicts"].get(f"{k[0]}/{k[1]}")
             if v is None or v != o_atom(a, jobs[k]):
+                if numeric_tag(a, jobs[k]):
+                    return "numeric-tag"
                 return "backslash" if (v is not None and has_backslash(a)) else a["k"]
     return "chain"
 
@@ -679,12 +697,21 @@ def oracle(case, ans):
             uses_state = a["v"] == "@state" or (a["k"] == "eq" and a["o"].get("var") == "@state")
             if r["exc"] is not None:
                 atom_ok = False
-                if not (ans.get("state_exc") and uses_state):          # already reported with the state
+                if odd_tagname(a) and r["exc"] == "ParseException":
+                    out.append(("C19:filter:tag-name-rejected",
+                                "a test on a tag whose name holds a digit or an underscore is rejected by the grammar"))
+                elif numeric_tag(a, j):
+                    out.append(("C19:filter:numeric-tag", f"a `{a['k']}` test on a tag whose value is a number raises {r['exc']}"))
+                elif not (ans.get("state_exc") and uses_state):          # already reported with the state
                     out.append((f"C19:filter:{a['k']}-raises", f"a `{a['k']}` test raises {r['exc']}"))
             elif r["v"] != want:
                 atom_ok = False
                 if r["v"] != o_atom(a, j, impl_lookup):     # not explained by the state alone
-                    if has_backslash(a):
+                    if numeric_tag(a, j):
+                        out.append(("C19:filter:numeric-tag",
+                                    f"a `{a['k']}` test on a tag whose value is a number answers {r['v']} where the "
+                                    f"comparison with the text of the number gives {want}"))
+                    elif has_backslash(a):
                         out.append(("C19:filter:backslash-not-literal",
                                     f"a `{a['k']}` test whose string holds a backslash answers {r['v']} where what is "
                                     f"written means {want}: the string is not taken as it is written"))
@@ -703,6 +730,10 @@ def oracle(case, ans):
         if rd is None:
             out.append((f"C19:filter:accepts-malformed:{malformed_cause(case['text'], lab)}",
                         "createFilter accepts a text that has no reading in the filter language"))
+        elif ans["eval_exc"] is not None and unreadable(case["job"]) and case["job"]["failed"] and not case["job"]["done"]:
+            out.append(("C19:state-raises:unreadable-pid", f"evaluating the filter raises {ans['eval_exc']}"))
+        elif ans["eval_exc"] is not None and any(numeric_tag(a, case["job"]) for a in atoms_of(case["expr"])):
+            out.append(("C19:filter:numeric-tag", f"evaluating the filter raises {ans['eval_exc']}"))
         elif ans["eval_exc"] is not None:
             out.append((f"C19:filter:near-grammar-raises:{lab}",
                         f"the text is accepted, then evaluating it raises {ans['eval_exc']}"))
@@ -735,6 +766,8 @@ def oracle(case, ans):
                 sel = lambda jj: o_tree(near_["reading"], jj)                      # noqa: E731
         if ans["exc"] is not None:
             cause = ("unreadable-pid" if any(unreadable(jj) and jj["failed"] and not jj["done"] for jj in jobs.values())
+                     else "numeric-tag" if case["expr"] is not None and not case.get("near") and any(
+                         numeric_tag(a, jj) for a in atoms_of(case["expr"]) for jj in jobs.values())
                      else blame(case, ans))
             out.append((f"C19:clean-raises:{cause}", f"jobs clean raises {ans['exc']}"))
         want = set()
@@ -1104,10 +1137,11 @@ def run(c: Check):
     c.extra["disagreeing_cases"] = [dict({k: v for k, v in views[i][0].items() if k != "atom_texts"}, view=views[i][1])
                                     for i in bad[:5]]
     c.level_assumptions = [
-        "pyparsing, click and Python's re are trusted; the character-level grammar is modelled (model/FilterParse.v) for "
-        "quoted strings without backslash; regular expressions are covered for the subset literal / . / concatenation / "
-        "alternation / star / ^ / $ on values without newline, their sources are not parsed by the model",
-        "tag values are strings; psutil reports process liveness truthfully; a pid file holds a local process definition",
+        "pyparsing, click and Python's re are trusted; the character-level grammar is modelled (model/FilterParse.v), "
+        "strings are taken as written; regular expressions are covered for the subset literal / escaped metacharacter / \\d / . "
+        "/ concatenation / alternation / star / ^ / $ on ASCII values without newline, their sources are not parsed by the model",
+        "tag values are strings or numbers (compared through their text); psutil reports process liveness truthfully; a pid "
+        "file holds a local process definition or is empty / cut (then the process counts as possibly alive)",
         "entries of jobs/<task>/ are real directories, and for `orphans` also links to job directories as `deprecated list "
         "--fix` leaves them (not for `jobs clean`); index entries are links to jobs/<task>/<hash> as the scheduler creates them",
     ]
